@@ -24,6 +24,7 @@ from harness.common import drv, errclass
 PID = "C15"
 THEOREMS = []  # filled at the bottom
 CHUNK = 1
+FANCHUNK = 75
 
 FA, FB, FZ = "A.cool", "B.cool", "Z.cool"     # Z is never created: the non-existent file
 FILES = [FA, FB, FZ]
@@ -372,6 +373,7 @@ def _strip_alt(op):
 def _fan(case, cls=False):
     prefix = INITS[case["init"]] + case["prefix"]
     alpha = ALPHABETS[case["alphabet"]]()
+    lo, hi = case.get("lo", 0), case.get("hi", len(alpha))
     sc = Scratch()
     stats = {"steps": 0, "pairs": 0}
     try:
@@ -392,6 +394,8 @@ def _fan(case, cls=False):
         devs = list(s.dev)
         k = len(prefix)
         for i, op in enumerate(alpha):
+            if not lo <= i < hi:
+                continue
             d2 = sc.fresh(like=d)
             os.chdir(d2)
             s2 = s.clone()
@@ -601,14 +605,18 @@ def cases(tier, rng):
     def rk():
         nrk[0] += 1
         return nrk[0] <= 40
-    yield "errclass", {"init": "I1", "prefix": [], "alphabet": "full"}
-    yield "errclass", {"init": "I2", "prefix": [], "alphabet": "full"}
+    nfull = len(alphabet_full())
+    for lo in range(0, nfull, FANCHUNK):
+        yield "errclass", {"init": "I1", "prefix": [], "alphabet": "full", "lo": lo, "hi": lo + FANCHUNK}
+        yield "errclass", {"init": "I2", "prefix": [], "alphabet": "full", "lo": lo, "hi": lo + FANCHUNK}
     plan = [("I1", "full", 1), ("I2", "reduced", 1)]
     if thorough:
         plan = [("I1", "full", 1), ("I2", "full", 1), ("I1", "reduced", 2), ("I2", "reduced", 2)]
     for init, alphabet, depth in plan:
+        n = len(ALPHABETS[alphabet]())
         for pre in _prefixes(init, alphabet, depth):
-            yield "fan", {"init": init, "prefix": pre, "alphabet": alphabet, "rk": rk()}
+            for lo in range(0, n, FANCHUNK):
+                yield "fan", {"init": init, "prefix": pre, "alphabet": alphabet, "lo": lo, "hi": lo + FANCHUNK, "rk": rk()}
     nrk[0] = 0
     for _ in range(1500 if thorough else 160):
         yield "history", {"ops": _random_history(rng, rng.randint(2, 6)), "rk": rk()}
